@@ -288,7 +288,7 @@ package cmd
 //@   requires index != nil && store.wfIndex(index) && tree != nil && object.treeWF(tree.Children) && len(path) <= 65535
 //@   ensures [wf] {C09} store.wfIndex(index)
 //@   ensures [disk-only] {C09} sameExcept(fs, old(fs), store.indexPath(rootGoitPath))
-//@   ensures [file-id] {C09,C03} err == nil ==> forall k int :: 0 <= k && k < len(index.Entries) && string(index.Entries[k].Path) == path ==> exists n *object.Node :: object.denotes(tree.Children, path, n) && len(n.Children) == 0 && string(index.Entries[k].Hash) == string(n.Hash)
+//@   ensures [file-id] {C09,C03} err == nil && old(store.strictEntries(index.Entries)) ==> forall k int :: 0 <= k && k < len(index.Entries) && string(index.Entries[k].Path) == path ==> exists n *object.Node :: object.denotes(tree.Children, path, n) && len(n.Children) == 0 && string(index.Entries[k].Hash) == string(n.Hash)
 
 // restore of one path writes that file and nothing else: no other file is created, changed or removed (directories on
 // the way to it may be created), and on success the file holds the bytes of the staged blob (C09)
